@@ -138,6 +138,7 @@ const (
 	c17ROk = iota
 	c17RErr
 	c17RPanic
+	c17RFatal // a non-null root field whose resolver fails
 )
 
 type c17Req struct {
@@ -159,7 +160,7 @@ func (q c17Req) coq() string {
 	}
 	fs := make([]string, len(q.fields))
 	for i, f := range q.fields {
-		fs[i] = []string{"ROk", "RErr", "RPanic"}[f]
+		fs[i] = []string{"ROk", "RErr", "RPanic", "RFatal"}[f]
 	}
 	return "(CExec " + coqList(fs) + ")"
 }
@@ -202,8 +203,11 @@ func (q c17Req) request() (string, string) {
 	}
 	var sb strings.Builder
 	sb.WriteString("{")
-	for i := range q.fields {
+	for i, f := range q.fields {
 		fmt.Fprintf(&sb, " f%d", i)
+		if f == c17RFatal {
+			sb.WriteString("n")
+		}
 	}
 	sb.WriteString(" }")
 	return sb.String(), ""
@@ -358,6 +362,10 @@ func c17Schema(q c17Req, exts []graphql.Extension) (graphql.Schema, error) {
 				return "v", nil
 			},
 		}
+		fields[fmt.Sprintf("f%dn", i)] = &graphql.Field{
+			Type:    graphql.NewNonNull(graphql.String),
+			Resolve: func(p graphql.ResolveParams) (interface{}, error) { return nil, errors.New("non-null resolver failed") },
+		}
 	}
 	return graphql.NewSchema(graphql.SchemaConfig{
 		Query:      graphql.NewObject(graphql.ObjectConfig{Name: "Q", Fields: fields}),
@@ -422,6 +430,12 @@ func c17Emit(e *Emitter, group string, q c17Req, behs []*c17ExtBeh, extraTags ..
 			collide = true
 		}
 		names[b.name] = true
+	}
+	for _, f := range q.fields {
+		if f == c17RFatal {
+			extraTags = append(extraTags, "root-non-null-failure")
+			break
+		}
 	}
 	tags := []string{q.tag(), fmt.Sprintf("exts:%d", len(behs)), fmt.Sprintf("faults:%d", faults)}
 	if collide {
@@ -538,6 +552,7 @@ var c17Classes = []c17Req{
 	{class: c17Exec, fields: []int{c17ROk, c17RErr}},
 	{class: c17Exec, fields: []int{c17RPanic, c17ROk, c17RErr}},
 	{class: c17Exec, fields: []int{c17RErr, c17RPanic}},
+	{class: c17Exec, fields: []int{c17ROk, c17RFatal, c17ROk}},
 }
 
 func c17Names(n int, collide bool) []int {
@@ -619,6 +634,8 @@ func genC17(tier string, seed uint64, n int, e *Emitter) {
 			for k := range q.fields {
 				if r.Chance(40) {
 					q.fields[k] = 1 + r.Intn(2)
+				} else if r.Chance(12) {
+					q.fields[k] = c17RFatal
 				}
 			}
 		}
